@@ -9,7 +9,7 @@ sys.path.insert(0, HERE)
 import facts as factsmod
 import core
 
-EVID = os.path.join(VERIF, "evidence")
+EVID = os.environ.get("VERIF_EVIDENCE_DIR") or os.path.join(VERIF, "evidence")  # selftest runs write elsewhere
 KNOWN = os.path.join(VERIF, "KNOWN_FINDINGS.txt")
 
 
